@@ -276,6 +276,16 @@ impl<'e> EventLoop<'e> {
             }
         }
 
+        // verification hook: a plain thread whose virtual clock is on does not sleep; the requested
+        // wait is reported, the virtual clock advances by it and the wait counts as elapsed
+        #[cfg(feature = "verif")]
+        if crate::verif::virtual_clock().is_some() && SchedulableCoroutine::current().is_none() {
+            let nanos = left_time.map_or(u64::MAX, |d| u64::try_from(d.as_nanos()).unwrap_or(u64::MAX));
+            crate::verif::point("wait_just", nanos, u64::from(left_time.is_none()));
+            crate::verif::advance_virtual_clock(nanos);
+            return Ok(());
+        }
+
         // use epoll/kevent/iocp
         let mut events = Events::with_capacity(1024);
         // mio 1.x does not internally retry on EINTR, so handle it here
